@@ -118,10 +118,15 @@ func Stop() {
 				}
 			}
 		}()
-		globalArchiver.Client.WaitGroup.Wait()
+		// Only one of the two clients exists: the direct one without --proxy, the proxied one with it
+		if globalArchiver.Client != nil {
+			globalArchiver.Client.WaitGroup.Wait()
+		}
 		stopLocalWatcher <- struct{}{}
 		logger.Debug("WARC writing finished")
-		globalArchiver.Client.Close()
+		if globalArchiver.Client != nil {
+			globalArchiver.Client.Close()
+		}
 		if globalArchiver.ClientWithProxy != nil {
 			globalArchiver.ClientWithProxy.WaitGroup.Wait()
 			globalArchiver.ClientWithProxy.Close()
